@@ -195,7 +195,12 @@ def run_history(ctx, rng, script=None):
                         continue
                     r = CHText(a) if isinstance(a, CHText) else a
                     c_obj, mc = pool[(rec[1] + rec[2]) % len(pool)]
-                    if isinstance(a, CHText):
+                    if isinstance(a, CHText) and rec[2] % 3 == 0:
+                        # a list of parts one of which is itself a list of (different) parts
+                        r += [b, [c_obj, b, "-"], c_obj] if rec[2] % 2 else ((c_obj, b), "-", [b])
+                        mr = ma + (mb + mc + mb + [("-", sgr.DEFAULT)] + mc if rec[2] % 2 else
+                                   mc + mb + [("-", sgr.DEFAULT)] + mb)
+                    elif isinstance(a, CHText):
                         r += [b, c_obj] if rec[2] % 2 else (b, c_obj)
                         mr = ma + mb + mc
                     else:
